@@ -88,6 +88,7 @@ func (c *ctlProxy) futureOK(sid uint64) bool {
 var oldKinds = map[uint8]bool{1: true, 2: true, 3: true, 5: true, 6: true, 7: true}
 
 func (x *e1) checkOldReader() {
+	x.checkOldRelease()
 	for _, m := range []*WireMonitor{x.monC, x.monS} {
 		if len(m.Viol) > 0 || m.Trailing() > 0 || len(m.Raw) == 0 {
 			continue
@@ -303,6 +304,15 @@ func (b *byzProxy) mutate(from *Endpoint, p []byte) []byte {
 		if k == kInvokeMD && ch.Bool("net", 0.6) {
 			pay = hostileMeta(ch)
 		}
+		if k == kError && ch.Bool("net", 0.25) {
+			// a long error text that is not text: only UTF-8 continuation bytes, or
+			// only bytes that start a multi-byte sequence
+			fill := []byte{0x80, 0xbf, 0xc3, 0xf0, 0xff}[ch.Pick("net", 5)]
+			pay = make([]byte, 8+[]int{1, 4095, 4096, 4097, 9000}[ch.Pick("net", 5)])
+			for i := 8; i < len(pay); i++ {
+				pay[i] = fill
+			}
+		}
 		q = append(q, refAppendFrame(nil, RFrame{Stream: cur, Msg: 1 << 30, Kind: k, Done: true, Data: pay})...)
 		b.hit("payload")
 	}
@@ -362,4 +372,59 @@ func hostileMeta(ch *Choices) []byte {
 		}
 	}
 	return b
+}
+
+// checkOldRelease (C18, packet sequences): a released v0.0.17 server lets go of a
+// stream only when it sees KindClose (or an error/cancel) for it, when it ended
+// the stream itself, or when both sides have half-closed. On a connection that is
+// still alive, every stream whose client call is over must have reached one of
+// those on the wire - otherwise a released server would swallow the next invoke.
+func (x *e1) checkOldRelease() {
+	if x.conn == nil || connClosed(x.conn) || x.serveDone || x.ioFired() || x.transportClosedByHarness() || x.closeStep > 0 || x.byz {
+		return
+	}
+	type st struct{ invoked, cClose, cHalf, sEnd, sHalf bool }
+	m := map[uint64]*st{}
+	get := func(id uint64) *st {
+		if m[id] == nil {
+			m[id] = &st{}
+		}
+		return m[id]
+	}
+	for _, p := range x.monC.Packets {
+		s := get(p.Stream)
+		switch p.Kind {
+		case kInvoke:
+			s.invoked = true
+		case kClose, kError:
+			s.cClose = true
+		case kCancel:
+			s.cClose = true // (a released server does not know it, but the current client only sends it in soft-cancel mode, which is its own compatibility story)
+		case kCloseSend:
+			s.cHalf = true
+		}
+	}
+	for _, p := range x.monS.Packets {
+		s := get(p.Stream)
+		switch p.Kind {
+		case kClose, kError:
+			s.sEnd = true
+		case kCloseSend:
+			s.sHalf = true
+		}
+	}
+	for _, r := range x.recs {
+		sid := x.sidOf(r)
+		s := m[sid]
+		if sid == 0 || s == nil || !s.invoked || !r.ClientDone || r.Cancelled {
+			continue
+		}
+		x.res.probe("old_release_rule_evaluated")
+		if !s.cHalf {
+			x.res.probe("old_release_rule_client_never_half_closed")
+		}
+		if !(s.cClose || s.sEnd || (s.cHalf && s.sHalf)) {
+			x.viol("oldreader", "the client is done with an rpc but its wire carries nothing that lets a released server release the stream (no close, and not both half-closes)", fmt.Sprintf("rpc%d stream %d client-half=%v server-half=%v", r.Spec.Idx, sid, s.cHalf, s.sHalf))
+		}
+	}
 }
